@@ -129,6 +129,20 @@ CLAIMED.update({
              technique="Rocq non-interference proof over access footprints + race-detector differential runs", design="5/C17 and 7"),
 })
 
+CLAIMED.update({
+ "C10": dict(text="Coq proofs for ALL schemas and values over a schema-generic interpreter of the generated Equals / ComputeHash code and a bit-exact 32-bit FNV-1a model (constants, shift sequences, zero normalisation and map-entry sorting read off hasher.go's AST for both modules): "
+                  "Equals is reflexive, symmetric and transitive on well-formed values, insensitive to map-entry order and nil-vs-empty, characterised exactly (equalsV = true <-> same), discriminates any differing position, Equal implies same hash (v2 and root module), "
+                  "the hash is a pure function of the value; refuted witnesses show the contract fails without zero normalisation or without sorting map-entry hashes. Correspondence: pools of values, round-tripped and permuted copies and every single-position mutation, all pairs, "
+                  "through the real generated Equals/ComputeHash; model agrees on every verdict and hash.",
+             note="Trusted: kernel, translator (FNV tables), driver; the family through the real generator (v2); NaN excluded as the property says; hashV truncates at insufficient fuel (theorems hold at every fuel; correspondence uses fuel 64).",
+             technique="Rocq proof over an Equals/hash interpreter + AST-read FNV tables + pairwise differential correspondence through the real generator", design="5/C10"),
+ "C16": dict(text="Coq proofs for ALL key lists over models of the generic (hash-bucketed) and primitive batch key sets and of the response re-keying: adding fails iff two keys are key-equal (complex keys on the key part only), ids are each key once in ascending encoded order, "
+                  "locate returns the stored original also for colliding hashes (uses C10's Equal => same hash), every reply entry is filed under the caller's original key with nothing lost, duplicated or moved, an unknown key is an error. Correspondence: 13 key types, "
+                  "hash-colliding keys (corpus + birthday search on the real fnv1a), keys equal up to params, escaping-relevant keys, 9 reply kinds through the real batchkeyset API and response unmarshalling with a pointer-identity oracle.",
+             note="Trusted: kernel, driver; premise: a reply does not list two key-equal keys in one map (a Go map keeps the later entry). v2 module.",
+             technique="Rocq proof over key-set and re-keying models (on top of the C10 hash contract) + differential correspondence with colliding keys", design="5/C16"),
+})
+
 def main():
     checks, na = [], []
     for p in ALL:
